@@ -37,6 +37,15 @@ def gen_program(rng, tier):
     if focus:
         R = rng.choice([2, 3, 3, 4])
         es = rng.sample([1, 2, 3, 4, 5], R)
+    # huge-extent programs: one extent above 2^31 (no element is ever touched by these programs, so no storage is needed):
+    # a constructor that narrows its integer arguments shows here and nowhere else
+    huge = (not focus) and rng.random() < 0.15
+    if huge:
+        t0 = rng.choice([5, 6, 7])
+        R = rng.choice([1, 2, 2, 3])
+        big = 2 ** 31 + rng.choice([0, 1, 5, 7]) if t0 == 5 else rng.choice([2 ** 31 + 5, 2 ** 32 + rng.choice([0, 3, 5]), 2 ** 33 + 1, 2 ** 31 - 1])
+        es = [1 if t0 == 5 else rng.choice([1, 2, 3]) for _ in range(R)]
+        es[rng.randrange(R)] = big
     ss = left_strides(es) if canon == 0 else right_strides(es)
     if prod1(es) > imax(t0):
         return None
@@ -84,7 +93,7 @@ def gen_program(rng, tier):
     span2 = 1 + sum((e - 1) * x for e, x in zip(es2, ss2))
     if any(prod1(es) > imax(ty.t) or any(v > imax(ty.t) for v in es + ss + es2 + ss2 + [span2]) for ty in types):
         return None
-    if span2 > 48:
+    if span2 > 48 and not huge:
         return None
     def canon_of(lay_, e_):
         return left_strides(e_) if lay_ == 0 else right_strides(e_)
@@ -253,6 +262,8 @@ def gen(rng, tier):
         for op in ops:
             hist["op=%s" % ["ctor", "copy", "move", "assign", "move-assign", "swap", "convert", "assign-converted"][op[0]]] += 1
         hist["rank=%d" % R] += 1
+        if max(es + [0]) >= 2 ** 31 - 1:
+            hist["huge extent (>= 2^31 - 1)"] += 1
         for t in types:
             hist["static-all" if all(p != DYN for p in t.pat) else "has-dynamic"] += 1
             hist["accessor=%s" % ("stateful" if t.acc else "default")] += 1
@@ -305,6 +316,8 @@ def collect(rep, prop, tier, seed, exe, replay=None):
         progs, cases, hist = gen(rng, tier)
     work = os.path.join(CACHE, "work", "%s-%s" % (prop, tier))
     records, build_fail = run_programs("P", "drv_pool.hpp", progs, cases, configs, work, exe, nshards=16, prelude=prelude, name="pool")
+    import incoq
+    incoq_n = incoq.sample_check(rep, prop, "P", records, tier, seed, work, replay)
     for (sh_, cfg, blog) in {c: (s_, c, l) for (s_, c, l) in reversed(build_fail)}.values():
         rep.violation("view-operations driver shard %s no longer builds in configuration %s" % (sh_, cfg),
                       {"obligation": "corr:pool/build/%s/%s" % (sh_, cfg), "log": blog[-3000:], "signature": "build:pool:%s" % cfg}, True)
@@ -334,7 +347,7 @@ def collect(rep, prop, tier, seed, exe, replay=None):
         if len(seen) >= 6:
             break
     return {
-        "evaluations": evaluations, "distinct_nontrivial": len(nontriv),
+        "evaluations": evaluations, "distinct_nontrivial": len(nontriv), "evaluated_inside_coq_too": incoq_n,
         "rule": "programs = straight-line sequences of 6-12 (thorough: up to 40) operations {construct from (handle, dynamic extents...), (handle, all extents...), "
                 "(handle, array), (handle, extents), (handle, mapping), (handle, mapping, accessor); copy; move; assign; move-assign; swap; converting construction; "
                 "assignment from a converted view} over a chain of 2-3 convertible mdspan types (element int -> const int, index type, static/dynamic pattern, layout incl. "
